@@ -98,6 +98,9 @@ Enc(T, V, addr, o) ==
   ELSE IF T.k = "slice" THEN
        (IF V = Nil THEN EOk(IF o.nonull THEN [j |-> "a", e |-> <<>>] ELSE [j |-> "null"]) ELSE EncSeq(T.e, V.e, 1, TRUE, o))
   ELSE IF T.k = "arr" THEN EncSeq(T.e, V.e, 1, addr, o)
+  ELSE IF T.k = "map" /\ V # Nil /\ V.g = "bm" THEN
+       \* a big map [g |-> "bm", n, p]: n keys sharing a prefix of p bytes, values 0..n-1; the document is its members in byte order of the keys
+       EOk([j |-> "bm", n |-> V.n, p |-> V.p, key |-> T.key, sorted |-> o.sort])
   ELSE IF T.k = "map" THEN
        (IF V = Nil THEN EOk(IF o.nonull THEN [j |-> "o", m |-> <<>>] ELSE [j |-> "null"])
         ELSE EncMembers(T, SortMembers(V.m), 1, o))
